@@ -31,6 +31,7 @@ MANIFEST = {
             " Inputs include lookup types reachable only through the request/response of a service (directly, in arrays, transitively) and user template directories with same-named partials in sub-folders.",
     "note": "Order and duplicates in lists are not judged; listing more inputs than necessary is allowed; combinations the CLI refuses are skipped and counted.",
 }
+MANIFEST["text"] += ' A root namespace directory without any definition is one of the option combinations.'
 
 LAUNCH = os.path.join(common.VERIF, "vlib", "launch_nnvg.py")
 
